@@ -60,7 +60,7 @@ def gen_type(rng, depth, counter):
         base = rng.choice(['ilist', 'dlist']) if rng.random() < 0.4 else rng.choice(list(BASES))
         return {'k': 'sc', 'base': base, 'attrs': gen_attrs(rng, counter, at_least=rng.choice([0, 1]))}
     parts = []
-    for _ in range(rng.randint(1, 4)):
+    for _ in range(rng.randint(1, 4) if rng.random() < 0.9 else 0):      # (0: an empty content, attributes only)
         counter[0] += 1
         mn, mx = rng.choice([(1, 1), (1, 1), (0, 1), (0, 3), (1, 3), (2, 2)])
         parts.append({'name': 'e%d' % counter[0], 'type': gen_type(rng, depth + 1, counter), 'min': mn, 'max': mx})
@@ -126,7 +126,7 @@ def gen_node(rng, d):
             for _ in range(rng.randint(p['min'], p['max'])):
                 seq.append(gen_node(rng, p))
     else:
-        for _ in range(rng.randint(0, 4)):
+        for _ in range(rng.randint(0, 4) if t['parts'] else 0):
             p = rng.choice(t['parts'])
             for _ in range(rng.randint(max(1, p['min']), p['max'])):
                 seq.append(gen_node(rng, p))
@@ -338,7 +338,7 @@ def mutate(rng, data):
     if not spots:
         return data
     cont, key = rng.choice(spots)
-    op = rng.choice(['drop', 'dup', 'retype', 'reorder', 'rename', 'wrap'])
+    op = rng.choice(['drop', 'dup', 'retype', 'reorder', 'rename', 'wrap', 'addtext'])
     try:
         if op == 'drop':
             del cont[key]
@@ -363,6 +363,15 @@ def mutate(rng, data):
                 cont[rng.choice(['bogus', '@bogus', 't:nope', '$', '#1'])] = cont.pop(key)
             else:
                 cont[key] = 'bogus'
+        elif op == 'addtext':        # character data where the type may not allow it
+            tk = rng.choice(['$', '$', '#text', '$t', '#1'])
+            v = cont[key]
+            if isinstance(v, dict):
+                v[tk] = 'txt'
+            elif isinstance(v, list):
+                v.append('txt')
+            elif v is None or isinstance(cont, dict):
+                cont[key] = {tk: 'txt'}
         else:
             cont[key] = [cont[key]]
     except Exception:  # noqa
